@@ -507,8 +507,8 @@ func (ex *Exec) frameObligations(fr *Frame, r retInfo, targets []modTarget, c *C
 	sort.Strings(names)
 	next0 := fr.entry.next
 	for _, n := range names {
-		if strings.HasPrefix(n, "B|") || strings.HasPrefix(n, "G|") {
-			continue // boxes are immutable once created; ghost components are havocked at call sites
+		if strings.HasPrefix(n, "B|") || (strings.HasPrefix(n, "G|") && !objectKeyedGhost[n]) {
+			continue // boxes are immutable once created; other ghost components are havocked at call sites
 		}
 		srt := compSorts[n]
 		now := r.st.heap[n]
@@ -665,3 +665,6 @@ func freshID(idx, entryNext *Term) bool {
 	}
 	return false
 }
+
+// ghost components indexed by object identifiers: framed like ordinary heap components
+var objectKeyedGhost = map[string]bool{compBufRow: true, compBufLen: true}
